@@ -285,14 +285,14 @@ def _scribble_buffer(o, k: int):
         tn = type(o).__name__
         if tn == "bitarray":
             o.invert()
-            if k % 3 == 1 and len(o):
+            if k % 3 == 1 and len(o) > 1:
                 del o[-1:]
-            elif k % 3 == 2:
+            elif k % 3 == 2 or not len(o):
                 o.extend("101")
         elif isinstance(o, bytearray):
             for i in range(len(o)):
                 o[i] ^= 0xFF
-            if k % 3 == 2:
+            if k % 3 == 2 or not len(o):
                 o.append(0x5A)
         elif tn == "ndarray":
             if o.dtype.kind in "iub":
@@ -353,14 +353,18 @@ def scribble(roots: List[Any]) -> int:
             count[0] += 1
 
     def top(o, depth=0):
-        if isinstance(o, (tuple, list)) and depth < 3:
-            for v in list(o):
-                top(v, depth + 1)
+        # depth 0: the entry's result (a tuple there is the entry's packaging of several results), depth 1: a result or an
+        # element of the result container, depth 2: elements of a returned container (scribbled themselves, not entered)
+        if isinstance(o, (tuple, list)):
+            if depth < 2:
+                for v in list(o):
+                    top(v, depth + 1)
             buffers_only(o, 0)
             container(o)
-        elif isinstance(o, dict) and depth < 3:
-            for v in list(o.values()):
-                top(v, depth + 1)
+        elif isinstance(o, dict):
+            if depth < 2:
+                for v in list(o.values()):
+                    top(v, depth + 1)
             buffers_only(o, 0)
             container(o)
         elif (_is_lib_obj(o) or _is_kaitai(o)) and not isinstance(o, enum.Enum):
